@@ -25,3 +25,7 @@ CHECK = dict(
     level_note='Trusted: engine/vsched.c, the ghost reasons/events oracle, gcc -fsanitize=thread instrumentation.',
     design_ref='DESIGN.md sections 2.2 and 4 (C06)',
 )
+
+# build variants (bin/checks.py): only -DNDEBUG (side effects inside assert) - the schedule exploration is too expensive to repeat on every build
+CHECK['variants'] = ['c06']
+CHECK['variant_tiers'] = {'gcc -Os': (), 'gcc -O0': (), 'clang -O2': (), 'gcc -O2 -DNDEBUG': ('quick',)}
